@@ -55,3 +55,13 @@ for _p in sorted(glob.glob(os.path.join(os.path.dirname(__file__), "conf_*.py"))
     for _pid in getattr(_m, "CLIENT_ALSO", []):
         if _pid in PROPS and "client" not in PROPS[_pid]["suites"]:
             PROPS[_pid]["suites"] = PROPS[_pid]["suites"] + ["client"]
+
+# further files of coq/Props whose theorems belong to a property: the client halves written by the
+# client-side proofs, and the blocking-structure model for the termination / deadlock clauses
+_EXTRA = {"C14": ["C14_client"], "C18": ["C18_client"], "C20": ["C20_client"],
+          "C10": ["Teardown"], "C17": ["Teardown"], "C12": ["Teardown"]}
+for _pid, _xs in _EXTRA.items():
+    if _pid in PROPS:
+        _have = [x for x in _xs if os.path.exists(os.path.join(os.path.dirname(os.path.dirname(__file__)), "coq", "Props", x + ".v"))]
+        if _have:
+            PROPS[_pid]["extra_props"] = _have
